@@ -203,8 +203,9 @@ class Ctx:
         found = [v for v in self.violations if v["found_input"]]
         notfound = [v for v in self.violations if not v["found_input"]]
         for v in found:
-            out_lines.append("VIOLATION property=%s replay=%s" % (self.prop, v["replay"]))
             nviol += 1
+            if nviol <= 5:      # a few replays are enough; the count goes into the evidence
+                out_lines.append("VIOLATION property=%s replay=%s" % (self.prop, v["replay"]))
         if not found:
             for v in notfound:
                 out_lines.append("VIOLATION property=%s replay=%s no-failing-input-found" % (self.prop, v["replay"]))
